@@ -481,7 +481,19 @@ pub fn addze(
             lhs.clone(),
             Expression::zext(lhs.bits(), expr_scalar("carry", 1))?,
         )?;
+        // The addition carries out only if rA is all ones and CA was set. Both
+        // results read rA and CA, and rD may be the same register as rA, so
+        // the carry goes through a temporary.
+        let carry_out = Scalar::temp(instruction.address, 1);
+        block.assign(
+            carry_out.clone(),
+            Expression::and(
+                Expression::cmpeq(lhs.clone(), expr_const(0xffff_ffff, 32))?,
+                expr_scalar("carry", 1),
+            )?,
+        );
         block.assign(dst, src);
+        block.assign(scalar("carry", 1), carry_out.into());
 
         block.index()
     };
@@ -1060,6 +1072,18 @@ pub fn srawi(
     let block_index = {
         let block = control_flow_graph.new_block()?;
 
+        // CA is set if rS is negative and any 1-bits are shifted out. This is
+        // computed before rA, which may be the same register as rS, is
+        // written.
+        let shifted_out = expr_const((1u64 << (detail.operands[2].imm() as u64 & 0x1f)) - 1, 32);
+        let carry = Expression::and(
+            Expression::cmplts(lhs.clone(), expr_const(0, 32))?,
+            Expression::cmpneq(
+                Expression::and(lhs.clone(), shifted_out)?,
+                expr_const(0, 32),
+            )?,
+        )?;
+        block.assign(scalar("carry", 1), carry);
         block.assign(dst, Expression::sra(lhs, rhs)?);
 
         block.index()
